@@ -118,12 +118,20 @@ def judge(R, what, case_desc, rec):
         R.count(f"{what}:{name}:{r.split(':')[0]}")
         if r == "HANG":
             R.violation({"kind": "hang", "call": name.split("(")[0], "input": what}, f"{name} did not terminate within the alarm", case_desc)
+        elif what != "d11-ladder" and isinstance(dt, (int, float)) and dt > PROMPT_S:
+            R.violation({"kind": "not-prompt", "call": name.split("(")[0], "input": what}, f"{name} took {dt:.1f} s on an archive of a few kB (outcome {r.split(':')[0]})", case_desc)
         elif r.startswith("BASEEXC"):
             R.violation({"kind": "non-ordinary-exception", "call": name.split("(")[0], "exc": r}, f"{name} raised {r}", case_desc)
     if rec["changed"]:
         sch = (case_desc.get("case") or {}).get("schema") or {}
         via = "RandomGeneratorNode.bit_generator" if sorted(rec["changed"]) == ["np.random"] and "RandomGeneratorNode" in json.dumps(sch) else None
         R.violation({"kind": "process-state-changed", "what": sorted(rec["changed"]), "via": via}, f"process-wide state changed: {json.dumps(rec['changed'])[:300]}", case_desc)
+
+
+DAMAGED_NAMES = ["sklearn.ensemble._hist_gradient_boosting.gradient_boosting!", "sklearn.linear_model._logistic ", "sklearn.neighbors._classification.\n",
+                 "sklearn.ensemble._hist_gradient_boosting..gradient_boosting", "numpy.random._generator.", "scipy.sparse._csr-", "a" * 20000,
+                 "a." * 60 + "!", "sklearn.feature_extraction.text" + "." + "_" * 48 + "\u00e9!"]
+PROMPT_S = 15.0      # a single call on a few-kB archive takes milliseconds; the alarm (HANG) is at 30 s
 
 
 def probe_cases(snap):
@@ -155,8 +163,13 @@ def run(R, only_cases=None):
     n = 400 if R.tier == "quick" else 4000
     # (a) schema-level mutations: model vs implementation, every aspect
     cases = only_cases or (probe_cases(snap) + [G.gen_case(rnd, malformed_p=1.0) for _ in range(n)])
-    recs, bad, _ = IO.run_batch(R, cases, aspects=("gut", "audit", "vis", "rows"), tag="c19")
-    IO.report_disagreements(R, cases, recs, bad, "C19")
+    try:
+        recs, bad, _ = IO.run_batch(R, cases, aspects=("gut", "audit", "vis", "rows"), tag="c19")
+        IO.report_disagreements(R, cases, recs, bad, "C19")
+    except Exception as e:  # noqa
+        # the implementation side of the batch did not finish (a call that hangs or kills the interpreter): the correspondence
+        # is broken, and the workers of (b) -- one alarm per call, crashes isolated per case -- say on which input
+        R.obligation_broken("correspondence C19/runner", f"{type(e).__name__}: {str(e)[-600:]}")
     # (b) clean failure observed on the implementation: schema-level ...
     cfg = {"scratch": str(scratch), "alarm": 30}
     rob = run_workers(R, cfg, [{"schema": c["schema"], "members": c["members"]} for c in cases])
@@ -180,6 +193,24 @@ def run(R, only_cases=None):
                                                    {**{k: v for k, v in c["schema"].items() if k != "protocol"}, "protocol": repr(c["schema"]["protocol"])},
                                                    "members": c["members"], "show": "all"}, "protocol_repr": repr(c["schema"]["protocol"]), "T": None}, r)
         R.notes["extreme_protocol_cases"] = len(xcases)
+        # ... long names damaged near their end (a stray character, a trailing blank or dot, a doubled dot, a line break) and
+        # very long names in the type-name slots of every node of a few well-formed archives (implementation only: what is
+        # required here is a prompt, ordinary outcome -- validation of such names must not cost more than reading them)
+        dcases = []
+        for c in base[:3]:
+            nodes = [st for _p, st in G.all_paths(c["schema"]) if isinstance(st, dict) and "__loader__" in st][:4]
+            for k, _st in enumerate(nodes):
+                for slot in ("__module__", "__class__"):
+                    for nm in DAMAGED_NAMES:
+                        sch = json.loads(json.dumps(c["schema"]))
+                        tgt = [st for _p, st in G.all_paths(sch) if isinstance(st, dict) and "__loader__" in st][k]
+                        tgt[slot] = nm
+                        dcases.append({"schema": sch, "members": c["members"]})
+        drob = run_workers(R, cfg, dcases)
+        for c, r in zip(dcases, drob):
+            R.case({"damaged-name": C.sha(c["schema"])}, nontrivial=True)
+            judge(R, "damaged-name", {"case": {"schema": c["schema"], "members": c["members"], "show": "all"}, "T": None}, r)
+        R.notes["damaged_name_cases"] = len(dcases)
         # ... and byte-level mutations of real dumps (search support only)
         nb = 60 if R.tier == "quick" else 600
         specs = [GV.gen_value(rnd, supported=True, max_depth=2) for _ in range(nb)]
